@@ -276,4 +276,4 @@ def run(facts, chk, tier, only=None):
     chk.guard('C19.inplace', 'C19.inplace:run', lambda: check_inplace(facts, chk))
     chk.guard('C19.callers', 'C19.callers:run', lambda: check_callers(facts, chk))
     from . import c09
-    chk.guard('C19.arms', 'C19.arms:run', lambda: c09.check_arms(facts, chk))
+    chk.guard('C19.arms', 'C19.arms:run', lambda: c09.check_arms(facts, chk, k_arms=False))
